@@ -199,6 +199,17 @@ func cmdCheck(args []string) int {
 			return 2
 		}
 	}
+	// assumed contracts on dependencies (stdlib etc.)
+	exts, _ := filepath.Glob(filepath.Join(verifDir(), "contracts", "*.spec"))
+	if len(exts) == 0 {
+		exts, _ = filepath.Glob("/verif/contracts/*.spec")
+	}
+	for _, e := range exts {
+		if err := specs.loadFile(e, ""); err != nil {
+			fmt.Fprintf(os.Stderr, "contract parse error: %v\n", err)
+			return 2
+		}
+	}
 	loadS := time.Since(t0).Seconds()
 	timeout := 20
 	jobs := 6
@@ -400,7 +411,7 @@ func cmdCheck(args []string) int {
 	if nUndecided > 0 || nDis < nObl {
 		level = "other"
 	}
-	var asm []string
+	asm := []string{}
 	for a := range assumptions {
 		asm = append(asm, a)
 	}
